@@ -435,6 +435,15 @@ impl PacketReceiver {
     }
 }
 
+#[cfg(uflow_verif)]
+impl PacketReceiver {
+    pub fn verif_dump(&self) -> String {
+        format!("base={} end={} alloc={} crf={:x} wrf={}",
+                self.base_id, self.end_id, self.assembly_window.verif_alloc(),
+                self.channel_ready_flags, self.window_ready_flag as u8)
+    }
+}
+
 #[cfg(test)]
 mod tests {
     use super::*;
